@@ -332,6 +332,16 @@ class Ctx(object):
             raise RuntimeError("impl runner %s failed: %s" % (script, p.stderr[-3000:]))
         return json.loads(p.stdout)
 
+    def run_impl_in(self, script, payload, subdir, timeout=1800):
+        """run_impl in a sub-directory of the work directory (several runners at once)"""
+        wd = os.path.join(self.workdir, subdir)
+        os.makedirs(wd, exist_ok=True)
+        p = subprocess.run([PY, os.path.join(HERE, script)], input=json.dumps(payload),
+                           env=self.impl_env(), capture_output=True, text=True, timeout=timeout, cwd=wd)
+        if p.returncode != 0:
+            raise RuntimeError("impl runner %s failed: %s" % (script, p.stderr[-3000:]))
+        return json.loads(p.stdout[p.stdout.index("{"):] if not p.stdout.lstrip().startswith(("{", "[")) else p.stdout)
+
     def run_impl_cases(self, script, cases, jobs=8, timeout=1800, extra=None):
         """the same for a payload {"cases": [...]} whose runner answers with one item per case: the cases are
         split over `jobs` processes (each in its own directory), results concatenated in order"""
